@@ -152,7 +152,7 @@ func c19Shape(ws []int) string {
 func c19Chains(c *Ctx) {
 	depth := 3
 	if c.Thorough() {
-		depth = 5
+		depth = 6
 	}
 	bases := c19Bases()
 	level := [][]int{{}} // wrappers, innermost first
